@@ -85,6 +85,7 @@ type Contracts struct {
 	Lemmas    []*Lemma
 	Writers   []*WriterRule
 	Bundles   map[string]*FuncSpec
+	Axioms    []*Lemma
 }
 
 // Lemma: a closed proof obligation over spec predicates only.
@@ -107,7 +108,7 @@ type WriterRule struct {
 	Line    int
 }
 
-var keywordRe = regexp.MustCompile(`^(requires|ensures|modifies|bundle|use|inline|trusted|loop|at|ghost|wraps|func|pred|pure|extern|singleton|receiver|alias|opaque|runtags|lemma|writers|callers|forbid|params|results|nopanic|terminates|maypanic)\b`)
+var keywordRe = regexp.MustCompile(`^(requires|ensures|modifies|bundle|use|axiom|inline|trusted|loop|at|ghost|wraps|func|pred|pure|extern|singleton|receiver|alias|opaque|runtags|lemma|writers|callers|forbid|params|results|nopanic|terminates|maypanic)\b`)
 
 func newContracts() *Contracts {
 	return &Contracts{
@@ -161,6 +162,10 @@ func sortByName(s string) (Sort, error) {
 		return SBool, nil
 	case "Ref":
 		return SRef, nil
+	case "RefSeq":
+		return "RefSeq", nil
+	case "IntSeq":
+		return "IntSeq", nil
 	}
 	return "", fmt.Errorf("unknown sort %q", s)
 }
@@ -239,7 +244,7 @@ func ParseContracts(file string, c *Contracts) error {
 			tags, _ := parseTags(rest)
 			c.RunTags = tags
 		case "ghost":
-			if f := strings.Fields(rest); len(f) >= 2 && (f[1] == "Int" || f[1] == "Bool" || f[1] == "Ref") {
+			if f := strings.Fields(rest); len(f) >= 2 && (f[1] == "Int" || f[1] == "Bool" || f[1] == "Ref" || f[1] == "RefSeq" || f[1] == "IntSeq") {
 				// declaration: ghost name Sort = init
 				s, err := sortByName(f[1])
 				if err != nil {
@@ -312,6 +317,20 @@ func ParseContracts(file string, c *Contracts) error {
 			}
 			l.Body = e
 			c.Lemmas = append(c.Lemmas, l)
+			cur = nil
+		case "axiom":
+			name, body, ok := strings.Cut(rest, "=")
+			if !ok {
+				return fmt.Errorf("%s:%d: axiom needs '='", file, line)
+			}
+			l := &Lemma{Name: strings.TrimSpace(name), Text: strings.TrimSpace(body), File: file, Line: line}
+			e, err := parseSpecExpr(l.Text, file, line)
+			if err != nil {
+				return err
+			}
+			l.Body = e
+			c.Axioms = append(c.Axioms, l)
+			c.Scan = append(c.Scan, "axiom "+l.Name+": "+l.Text)
 			cur = nil
 		case "writers", "callers", "forbid":
 			tags, r2 := parseTags(rest)
